@@ -102,10 +102,24 @@ def gen_p2nest(rng):
     tl[init] = [(F(1), top)] if rng.random() < 0.5 else [(F(1, 2), top), (F(1, 2), f)]
     rewards[init] = F(rng.randint(0, 5))
     gd = {"rewards": rewards, "players": players, "transition_list": tl, "final_states": [f]}
-    return games.renumber_random(rng, gd)
+    # sibling: the same game with each branch's two chance states exchanging their transitions (the sure one becomes the risky one):
+    # every Player-2 state keeps its index and its action/target list, but its reachability-minimal action flips
+    tl2 = [list(t) for t in tl]
+    for top_i in tops:
+        (a1, s1), (a2, s2) = tl[top_i]
+        tl2[s1], tl2[s2] = list(tl[s2]), list(tl[s1])
+    sib = dict(gd, transition_list=tl2)
+    perm = games.random_perm(rng, len(players))
+    return games.permute(gd, perm), games.permute(sib, perm)
 
 
 def decide(gd, idx, cls):
+    sib = gd.pop("_sibling", None)
+    if sib is not None:
+        # solved first, in the same process: anything remembered per state index / transition list across games is stale afterwards
+        r0 = decide(sib, idx, cls + "-SIB")
+        if r0.get("verdict") == "violated":
+            return r0
     an = analysis.Analysis(gd)
     res = {"idx": idx, "verdict": "held", "stats": {}, "tags": [cls], "key": games.canon_key(gd), "nontrivial": False}
     try:
@@ -164,7 +178,9 @@ def _gen(batch, idx):
     if c == "G-P2MIN":
         return gen_p2min(rng)
     if c == "G-P2NEST":
-        return gen_p2nest(rng)
+        gd, sib = gen_p2nest(rng)
+        gd["_sibling"] = sib
+        return gd
     return games.gen_class(rng, c)
 
 
